@@ -11,7 +11,7 @@ CONFIG = {
         "V.C04.table_facts", "V.C04.accessors_only_see_json", "V.C04.hash_match_intact", "V.C04.hash_mismatch_redacted",
         "V.C04.redaction_no_event_id", "V.C04.dropEventID_noop", "V.C04.accepted_no_event_id",
         "V.C04.identity_of_accepted", "V.C04.tamper_redactable_same_identity", "V.C04.same_redaction_same_identity_intact",
-        # round 4 (fixes 77ea759, 4be2601): texts that do not denote ONE event are refused on receipt; every accessor of an
+        # round 4 (fixes 7c511f2, 849cf70): texts that do not denote ONE event are refused on receipt; every accessor of an
         # accepted event reports the exact member of JSON()
         "V.C04.refuses_repeated_member", "V.C04.refuses_field_variant", "V.C04.keep_names_no_variant",
         "V.C04.accepted_keys_nodup", "V.C04.accepted_no_variant", "V.C04.accessors_read_exact_members",
@@ -48,12 +48,12 @@ CONFIG = {
     "assumptions": [
         "texts with ill-formed Unicode are skipped (canonical form outside C01's specification). Texts that repeat a member name (any "
         "object, any depth) are INSIDE the untrusted op since round 4: the specification demands refusal, the model refuses "
-        "(err:badjson, as newEventFromUntrustedJSONV1/V2/V3 do since 77ea759); on the trusted / headered ops such texts are still "
+        "(err:badjson, as newEventFromUntrustedJSONV1/V2/V3 do since 7c511f2); on the trusted / headered ops such texts are still "
         "skipped (the trusted constructors are not the receipt path)",
         "the redaction is C05's (its domain restrictions apply: kept content IntSafe etc.)",
         "case variants of EVENT-struct field names (room_id, sender, type, state_key, content, redacts, depth, unsigned, origin_server_ts, "
         "event_id, prev_events, auth_events, msc4354_sticky, sticky) as top-level members: the specification demands REFUSAL (an accessor "
-        "must report the exact member of JSON(); before 4be2601 the struct decoding read them as the field, e.g. Type() differed between "
+        "must report the exact member of JSON(); before 849cf70 the struct decoding read them as the field, e.g. Type() differed between "
         "two texts with the same JSON() and event ID) - no longer 'outside the quantifier'. Variants of keys that are only stripped on "
         "receipt (Outlier, Age_ts, Destinations) and of names only the redaction keep struct lists (hashes, signatures, origin, "
         "prev_state, membership) are ordinary members: covered by the content hash, dropped by redaction, INSIDE the specification",
